@@ -231,7 +231,7 @@ impl Cartesian<'_> {
             .par_iter()
             .find_map_any(|strategy| {
                 match self.probe_strategy(
-                    strategy, &poses, &stop
+                    from, strategy, &poses, &stop
                 ) {
                     Ok(outcome) => {
                         println!("Strategy worked out: {:?}", strategy);
@@ -257,6 +257,7 @@ impl Cartesian<'_> {
     /// Probe the given strategy
     fn probe_strategy(
         &self,
+        from: &Joints,
         work_path_start: &Joints,
         poses: &Vec<AnnotatedPose>,
         stop: &AtomicBool,
@@ -265,6 +266,17 @@ impl Cartesian<'_> {
 
         let started = Instant::now();
         let mut trace = Vec::with_capacity(100 + poses.len() + 10);
+
+        // Relocate (collision free, not Cartesian) from the given start to the strategy point
+        let onboarding = self.rrt.plan_rrt(from, work_path_start, self.robot, stop)?;
+        // The last point of onboarding is the strategy point itself that follows as LAND
+        for joints in onboarding.iter().take(onboarding.len().saturating_sub(1)) {
+            trace.push(AnnotatedJoints {
+                joints: *joints,
+                flags: PathFlags::ONBOARDING,
+            });
+        }
+
         // Push the strategy point, from here the move must be already CARTESIAN
         trace.push(AnnotatedJoints {
             joints: *work_path_start,
